@@ -127,7 +127,36 @@ func features(schema any) map[string]bool {
 		}
 	}
 	walk(schema, false)
+	// a definition that requires a property referring to itself
+	if root, ok := schema.(map[string]any); ok {
+		for _, dk := range []string{"$defs", "definitions"} {
+			defs, _ := root[dk].(map[string]any)
+			for name, d := range defs {
+				dm, _ := d.(map[string]any)
+				props, _ := dm["properties"].(map[string]any)
+				for _, r := range toStrings(dm["required"]) {
+					if pm, ok := props[r].(map[string]any); ok {
+						if ref, _ := pm["$ref"].(string); ref == "#/"+dk+"/"+name {
+							f["required-self-ref"] = true
+						}
+					}
+				}
+			}
+		}
+	}
 	return f
+}
+
+func toStrings(v any) []string {
+	var o []string
+	if l, ok := v.([]any); ok {
+		for _, e := range l {
+			if s, ok := e.(string); ok {
+				o = append(o, s)
+			}
+		}
+	}
+	return o
 }
 
 var nonAlnum = regexp.MustCompile(`[^A-Za-z0-9]`)
@@ -209,6 +238,7 @@ var c01Rules = []genRule{
 	{"ENUM_CONST_COLLISION", regexp.MustCompile(`\w+ redeclared in this block`), "enum-const-collision"},
 	{"DESCRIPTION_BUILD_CONSTRAINT", regexp.MustCompile(`^not gofmt-stable$`), "description-build-line"},
 	{"NUL_IN_TEXT", regexp.MustCompile(`illegal character NUL`), "nul-in-text"},
+	{"RECURSIVE_REQUIRED_NOT_POINTER", regexp.MustCompile(`invalid recursive type`), "required-self-ref"},
 	{"INT_MULTIPLEOF_LT1", regexp.MustCompile(`(invalid operation: )?division by zero`), "int-multipleOf<1"},
 }
 
